@@ -220,6 +220,9 @@ def gen_schema(rng, sw):
                     shape.append(None)
                 elif sw.get("zero_static") and schema[item]["k"] == "sc" and rng.random() < 0.12:
                     shape.append(0)  # a static dimension of length 0 is a legal (empty) array type
+                elif sw.get("big_dims") and schema[item]["k"] == "sc":
+                    # arrays of numbers with hundreds of items (bulk code paths have thresholds in the item count)
+                    shape.append(rng.choice([5, 6, 7, 8, 9]))
                 else:
                     shape.append(rng.choice([1, 2, 2, 3, 4]))
             order = list(range(nd))
